@@ -30,7 +30,9 @@ def Shape (s : State) (j : TxId) : Prop :=
       | .conflict => ∃ r, s.result j = some r ∧ Dirty (fun l => s.mv l j) r.locs
       | _ => ∃ r, s.result j = some r ∧ OkRes r ∧ Clean (fun l => s.mv l j) r
   | .reading _ _ _ => Dirty (fun l => s.mv l j) (oldLocs s j)
-  | .publishing run todo _ => ∃ done, writeLocs run.writes = done ++ todo ∧
+  | .publishing run todo _ => ∃ done : List Loc,
+      (∀ l, l ∈ writeLocs run.writes ↔ l ∈ done ∨ l ∈ todo) ∧ (∀ l, l ∈ todo → l ∉ done) ∧
+      todo.Nodup ∧
       (∀ l, l ∈ done → ∃ e, s.mv l j = some e ∧ NewEntry (s.inc j) run.writes run.blocked l e) ∧
       (∀ l, l ∉ done → (∀ e, s.mv l j = some e → l ∈ oldLocs s j ∧ e.est = true) ∧
                         (s.mv l j = none → l ∉ oldLocs s j))
@@ -42,7 +44,8 @@ def Shape (s : State) (j : TxId) : Prop :=
   | .errMark _ ow _ => ow = oldWrites s j ∧ Dirty (fun l => s.mv l j) (oldLocs s j)
   | .valPreTs => ∃ r, s.result j = some r ∧ OkRes r ∧ Clean (fun l => s.mv l j) r
   | .valScan _ done todo _ =>
-      ∃ r, s.result j = some r ∧ OkRes r ∧ Clean (fun l => s.mv l j) r ∧ done.reverse ++ todo = r.reads
+      ∃ r, s.result j = some r ∧ OkRes r ∧ Clean (fun l => s.mv l j) r ∧
+        ∀ x, x ∈ r.reads ↔ x ∈ done ∨ x ∈ todo
   | .valMark todo => ∃ r, s.result j = some r ∧
       (∀ l e, s.mv l j = some e → l ∈ r.locs ∧ (l ∉ todo → e.est = true)) ∧
       (∀ l, s.mv l j = none → l ∉ r.locs)
